@@ -112,5 +112,5 @@ ForeignKept ==
 (* ---- C18: every class created through the metaclass is announced exactly once ---- *)
 RegisteredOnce ==
   Settled => \A k \in DOMAIN cl : (cl[k].ok /\ k <= step) =>
-     Cardinality({i \in DOMAIN regd : regd[i] = k}) = (IF Stmt(k).dbc THEN 1 ELSE 0)
+     Cardinality({i \in DOMAIN regd : regd[i] = k}) = (IF Stmt(k).dbc /\ Stmt(k).mod # "icontract._metaclass" THEN 1 ELSE 0)
 =============================================================================
